@@ -28,6 +28,7 @@ STATES = [
     "requests-in-flight",
     "refresh-closing-one-broker",
     "refresh-closing-two-brokers",
+    "refresh-closing-every-live-broker",
     "metadata-load-via-broker",
     "metadata-load-via-only-broker",
 ]
@@ -188,6 +189,21 @@ def scenario(job):
                 first = [t for t in cl.net.closing_transports() if (t.attempt.host, t.attempt.port) == (h1, p1)]
                 if first and ctx.choose("first_gone_before_close", 2) == 1:
                     first[0].drop()
+        elif state == "refresh-closing-every-live-broker":
+            # the client is connected to broker 1 only; a full refresh (answered over that connection) no longer lists it, so its
+            # broker client is closed -- still going down -- and the client holds no live broker client at all when close() is called
+            warm([("t", 0)])
+            cl.addr.pop(1)
+            cl.leaders[("t", 0)] = 2
+            r = op("refresh", client.load_metadata_for_topics())
+            for _ in range(6):
+                if r:
+                    break
+                for inb in cl.unanswered():
+                    if inb.api == 3:
+                        cl.answer(inb)
+            ops.pop()
+            ctx.check(bool(cl.net.closing_transports()), "prefix-ok", "no connection is going down")
         elif state == "metadata-load-via-only-broker":
             # the cluster has shrunk to one broker: a broker-unaware request in flight on it has no other broker to fall back to
             cl.addr.pop(2)
